@@ -6,7 +6,6 @@ import (
 	"fmt"
 	"math/rand"
 	"os"
-	"sort"
 	"strings"
 	"sync"
 	"testing"
@@ -162,7 +161,7 @@ func c11Run(t *testing.T, seed int64, cs c11Case, known map[string]bool) *c11Res
 			limit: actions.FlowControl{MaxMessages: 1, MaxBytes: 1}, ctl: w.Ctl}
 		ctx, cancel := context.WithCancel(WithLabel(context.Background(), "stream"))
 		defer cancel()
-		w.Ctl.SpinGuard("stream", 600)
+		w.Ctl.SpinGuard("stream", 200)
 		w.Ctl.StartLog()
 		ms := &actions.MessageStreamer{Client: w.Client, SubscriptionID: &subID, SubscriptionName: SubName("s")}
 		fin := make(chan error, 1)
@@ -183,10 +182,12 @@ func c11Run(t *testing.T, seed int64, cs c11Case, known map[string]bool) *c11Res
 		drain := func() {
 			stmts := w.Ctl.peek()
 			var curBatch []string
+			curCands := ""
 			inQuery := false
 			flush := func() {
 				if inQuery {
 					res.batches = append(res.batches, strings.Join(curBatch, "+"))
+					res.evs = append(res.evs, "loop", "q~"+curCands+"~"+strings.Join(curBatch, "+"))
 				}
 				curBatch, inQuery = nil, false
 			}
@@ -211,7 +212,7 @@ func c11Run(t *testing.T, seed int64, cs c11Case, known map[string]bool) *c11Res
 						}
 						cands = append(cands, fmt.Sprintf("%d:%d", idOf(id), sizeOf[id]))
 					}
-					res.evs = append(res.evs, "loop", "q~"+strings.Join(cands, "+"))
+					curCands = strings.Join(cands, "+")
 					inQuery = true
 				case s.Kind == "mark" && strings.HasPrefix(s.SQL, "send "):
 					id, _ := uuid.Parse(strings.TrimPrefix(s.SQL, "send "))
@@ -487,14 +488,9 @@ func TestC11(t *testing.T) {
 		}
 		ans := strings.TrimPrefix(outs[0], "R ")
 		sel := strings.Split(strings.SplitN(ans, "|", 2)[0], ";")
-		if ans == outs[0] {
-			sel = nil
-		}
-		// compare as sets per batch (the streamer sends a batch in id order of its own)
-		norm := func(s string) string { x := strings.Split(s, "+"); sort.Strings(x); return strings.Join(x, "+") }
-		bad := len(sel) != len(r.batches) && !(len(r.batches) == 0 && len(sel) == 1 && sel[0] == "")
-		for i := 0; !bad && i < len(r.batches); i++ {
-			bad = norm(sel[i]) != norm(r.batches[i])
+		bad := ans == outs[0]
+		for _, x := range sel {
+			bad = bad || strings.HasPrefix(x, "bad")
 		}
 		if bad && !seen["correspondence"] {
 			seen["correspondence"] = true
